@@ -97,9 +97,26 @@ Inductive bop' := BChain | BJoin (p : pred) (common : gset tag) | BIgnore (ignor
 
 Definition order_loss (s : tree) : bool := has_sort (sel_slots s) && negb (has_slice (sel_slots s)).
 
+(* other.with_rows_satisfying(predicate) as used by Join._finish_apply when one operand is the join
+   identity: _begin_apply, then the engine's append_unary.  In the SQL engine the operand is
+   conformed first; that is modelled for operands that are SELECT markers or locked/marker
+   relations (anything else is reported as a gap of the model, not as a library error). *)
+Definition select_rows (p : pred) (t : tree) : result tree :=
+  do o <- begin_apply (Sel (selection_norm p)) (columns t);
+  match ekind_of (engine_of t) with
+  | KIter => finish_apply o t
+  | KSql =>
+      do c <- (match t with
+               | SelM _ _ _ => Ok t
+               | Leaf _ _ _ _ _ | Mat _ _ | Xfer _ _ => select_of t
+               | _ => Err ModelGap
+               end);
+      append_unary_sel o c
+  end.
+
 Definition join_finish (p : pred) (c : gset tag) (l r : tree) : result tree :=
-  if is_join_identity l then Ok r
-  else if is_join_identity r then Ok l
+  if is_join_identity l then select_rows p r
+  else if is_join_identity r then select_rows p l
   else if negb (engine_eqb (engine_of l) (engine_of r)) then Err EngineError
   else if negb (supp_p (ekind_of (engine_of l)) p) then Err EngineError
   else Ok (Bin (Join p c) l r).
@@ -113,8 +130,11 @@ Definition append_binary_sel (b : bop') (l r : tree) : result tree :=
            do r' <- (if has_slice (sel_slots r) then select_of r else Ok r);
            select_of (Bin Chain l' r')
        | BJoin p c =>
-           let '(nl, lp) := strip l in
-           let '(nr, rp) := strip r in
+           let '(nl0, lp0) := strip l in
+           let '(nr0, rp0) := strip r in
+           (* do not strip a projection that hides a column the other operand provides *)
+           let '(nl, lp) := if bool_decide ((columns nl0 ∖ columns l) ∩ columns nr0 = ∅) then (nl0, lp0) else (l, false) in
+           let '(nr, rp) := if bool_decide ((columns nr0 ∖ columns r) ∩ columns nl = ∅) then (nr0, rp0) else (r, false) in
            do j <- join_finish p c nl nr;
            apply_skip (with_proj no_slots (if lp || rp then Some (columns l ∪ columns r) else None)) j
        | BIgnore il => Ok (if il then r else l)
